@@ -312,6 +312,30 @@ func scribble(b []byte) {
 
 // roundTrip checks Unmarshal(Marshal(v)) == v, that the decoded value does
 // not alias the input buffer, and that nothing panics.
+// c11API is how the codec is reached in the current case: through the Codec value, or through
+// the package-level helpers that look it up by id or by name.
+var c11API = "direct"
+
+func apiMarshal(c codec.Codec, v interface{}) ([]byte, error) {
+	switch c11API {
+	case "byid":
+		return codec.Marshal(c.ID(), v)
+	case "byname":
+		return codec.MarshalByName(c.Name(), v)
+	}
+	return c.Marshal(v)
+}
+
+func apiUnmarshal(c codec.Codec, data []byte, v interface{}) error {
+	switch c11API {
+	case "byid":
+		return codec.Unmarshal(c.ID(), data, v)
+	case "byname":
+		return codec.UnmarshalByName(c.Name(), data, v)
+	}
+	return c.Unmarshal(data, v)
+}
+
 func roundTrip(t *rapid.T, c codec.Codec, val interface{}, dst interface{}, got func() interface{}, want interface{}) {
 	var enc []byte
 	var err error
@@ -321,7 +345,7 @@ func roundTrip(t *rapid.T, c codec.Codec, val interface{}, dst interface{}, got 
 				err = fmt.Errorf("panic in Marshal: %v", p)
 			}
 		}()
-		enc, err = c.Marshal(val)
+		enc, err = apiMarshal(c, val)
 	}()
 	if err != nil {
 		t.Fatalf("%s: Marshal(%T) of a value in the supported domain failed: %v", c.Name(), val, err)
@@ -343,7 +367,7 @@ func roundTrip(t *rapid.T, c codec.Codec, val interface{}, dst interface{}, got 
 				err = fmt.Errorf("panic in Unmarshal: %v", p)
 			}
 		}()
-		err = c.Unmarshal(in, dst)
+		err = apiUnmarshal(c, in, dst)
 	}()
 	if err != nil {
 		t.Fatalf("%s: Unmarshal(Marshal(v)) failed for %T: %v (encoding %s)", c.Name(), val, err, vt.Trunc(string(enc)))
@@ -380,9 +404,12 @@ func otherValues(codecName string) []interface{} {
 }
 
 func TestC11RoundTrip(t *testing.T) {
-	rec := vt.NewRec(t, "C11", "roundtrip", "one typed value per case from the codec's supported domain (json/xml/form structs with scalars at extremes, slices, fixed arrays, nested structs; plain scalars and named string/bytes; protobuf messages decoded into fresh and into previously used destinations, thrift messages); non-trivial = has a slice/array with >=2 distinct elements, an extreme scalar or a non-alphanumeric string; distinct by printed value")
+	rec := vt.NewRec(t, "C11", "roundtrip", "one typed value per case, through the Codec value or through the package-level helpers by id / by name, from the codec's supported domain (json/xml/form structs with scalars at extremes, slices, fixed arrays, nested structs; plain scalars and named string/bytes decoded into fresh or previously used variables; protobuf messages decoded into fresh and into previously used destinations, thrift messages); non-trivial = has a slice/array with >=2 distinct elements, an extreme scalar or a non-alphanumeric string; distinct by printed value")
 	rapid.Check(t, func(t *rapid.T) {
 		kind := rapid.SampledFrom([]string{"json", "xml", "form-struct", "form-values", "form-map", "plain", "protobuf", "thrift", "rawbody"}).Draw(t, "kind")
+		c11API = rapid.SampledFrom([]string{"direct", "direct", "byid", "byname"}).Draw(t, "api")
+		defer func() { c11API = "direct" }()
+		usedBefore := rapid.Bool().Draw(t, "usedbefore") // scalar destinations may hold an earlier value
 		nt := true
 		var canon string
 		switch kind {
@@ -426,21 +453,33 @@ func TestC11RoundTrip(t *testing.T) {
 			case 0:
 				v := string(vt.Bytes(t, "s", 300))
 				var d string
+				if usedBefore {
+					d = "previous value"
+				}
 				roundTrip(t, c, v, &d, func() interface{} { return d }, v)
 				canon = "s:" + v
 			case 1:
 				v := vt.Bytes(t, "b", 300)
 				var d []byte
+				if usedBefore {
+					d = []byte("previous value")
+				}
 				roundTrip(t, c, v, &d, func() interface{} { return d }, v)
 				canon = "b:" + string(v)
 			case 2:
 				v := NStr(vt.Bytes(t, "ns", 300))
 				var d NStr
+				if usedBefore {
+					d = "previous value"
+				}
 				roundTrip(t, c, v, &d, func() interface{} { return d }, v)
 				canon = "ns:" + string(v)
 			case 3:
 				v := NBytes(vt.Bytes(t, "nb", 300))
 				var d NBytes
+				if usedBefore {
+					d = NBytes("previous value")
+				}
 				roundTrip(t, c, v, &d, func() interface{} { return d }, v)
 				canon = "nb:" + string(v)
 			case 4:
